@@ -1,1 +1,231 @@
-//! placeholder
+//! R-F64: exact arithmetic for float operands (an f64 is m * 2^e with |m| < 2^53), using a tiny
+//! arbitrary-precision unsigned integer so that no formula of the library is re-used.
+
+use std::cmp::Ordering;
+
+#[derive(Clone, Debug, PartialEq, Eq)]
+pub struct Big(pub Vec<u64>); // little-endian limbs, no trailing zeros
+
+impl Big {
+    pub fn from_u128(x: u128) -> Big {
+        let mut v = vec![x as u64, (x >> 64) as u64];
+        while v.last() == Some(&0) {
+            v.pop();
+        }
+        Big(v)
+    }
+    pub fn is_zero(&self) -> bool {
+        self.0.is_empty()
+    }
+    pub fn mul(&self, o: &Big) -> Big {
+        if self.is_zero() || o.is_zero() {
+            return Big(vec![]);
+        }
+        let mut r = vec![0u64; self.0.len() + o.0.len()];
+        for (i, &a) in self.0.iter().enumerate() {
+            let mut carry: u128 = 0;
+            for (j, &b) in o.0.iter().enumerate() {
+                let cur = r[i + j] as u128 + (a as u128) * (b as u128) + carry;
+                r[i + j] = cur as u64;
+                carry = cur >> 64;
+            }
+            let mut k = i + o.0.len();
+            while carry > 0 {
+                let cur = r[k] as u128 + carry;
+                r[k] = cur as u64;
+                carry = cur >> 64;
+                k += 1;
+            }
+        }
+        while r.last() == Some(&0) {
+            r.pop();
+        }
+        Big(r)
+    }
+    pub fn shl(&self, bits: u32) -> Big {
+        if self.is_zero() {
+            return Big(vec![]);
+        }
+        let limbs = (bits / 64) as usize;
+        let b = bits % 64;
+        let mut r = vec![0u64; limbs];
+        let mut carry = 0u64;
+        for &x in &self.0 {
+            if b == 0 {
+                r.push(x);
+            } else {
+                r.push((x << b) | carry);
+                carry = x >> (64 - b);
+            }
+        }
+        if carry > 0 {
+            r.push(carry);
+        }
+        Big(r)
+    }
+    pub fn add(&self, o: &Big) -> Big {
+        let n = self.0.len().max(o.0.len());
+        let mut r = Vec::with_capacity(n + 1);
+        let mut carry = 0u128;
+        for i in 0..n {
+            let cur = *self.0.get(i).unwrap_or(&0) as u128 + *o.0.get(i).unwrap_or(&0) as u128 + carry;
+            r.push(cur as u64);
+            carry = cur >> 64;
+        }
+        if carry > 0 {
+            r.push(carry as u64);
+        }
+        Big(r)
+    }
+    pub fn bits(&self) -> u32 {
+        match self.0.last() {
+            None => 0,
+            Some(&t) => (self.0.len() as u32 - 1) * 64 + (64 - t.leading_zeros()),
+        }
+    }
+}
+impl PartialOrd for Big {
+    fn partial_cmp(&self, o: &Big) -> Option<Ordering> {
+        Some(self.cmp(o))
+    }
+}
+impl Ord for Big {
+    fn cmp(&self, o: &Big) -> Ordering {
+        if self.0.len() != o.0.len() {
+            return self.0.len().cmp(&o.0.len());
+        }
+        for i in (0..self.0.len()).rev() {
+            if self.0[i] != o.0[i] {
+                return self.0[i].cmp(&o.0[i]);
+            }
+        }
+        Ordering::Equal
+    }
+}
+
+/// x = sign * mant * 2^exp exactly (x finite). mant < 2^53.
+pub fn decompose(x: f64) -> (bool, u64, i32) {
+    let bits = x.to_bits();
+    let neg = bits >> 63 == 1;
+    let e = ((bits >> 52) & 0x7ff) as i32;
+    let f = bits & ((1u64 << 52) - 1);
+    if e == 0 {
+        (neg, f, -1074)
+    } else {
+        (neg, f | (1u64 << 52), e - 1075)
+    }
+}
+
+/// A non-negative rational  num * 2^num_shift / (den * 2^den_shift)  with Big parts.
+pub struct Rat {
+    pub num: Big,
+    pub den: Big,
+}
+
+/// |c| * |x|  as an exact rational
+pub fn abs_product(c: u128, x: f64) -> Rat {
+    let (_, m, e) = decompose(x);
+    let n = Big::from_u128(c).mul(&Big::from_u128(m as u128));
+    if e >= 0 {
+        Rat { num: n.shl(e as u32), den: Big::from_u128(1) }
+    } else {
+        Rat { num: n, den: Big::from_u128(1).shl((-e) as u32) }
+    }
+}
+/// |c| / |x|  as an exact rational (x != 0)
+pub fn abs_quotient(c: u128, x: f64) -> Rat {
+    let (_, m, e) = decompose(x);
+    let mm = Big::from_u128(m as u128);
+    if e >= 0 {
+        Rat { num: Big::from_u128(c), den: mm.shl(e as u32) }
+    } else {
+        Rat { num: Big::from_u128(c).shl((-e) as u32), den: mm }
+    }
+}
+
+impl Rat {
+    /// is  r <= q * (1 + 2^-k) ?
+    pub fn int_le_scaled_up(&self, r: u128, k: u32) -> bool {
+        // r * den * 2^k <= num * (2^k + 1)
+        let lhs = Big::from_u128(r).mul(&self.den).shl(k);
+        let rhs = self.num.mul(&Big::from_u128(1).shl(k).add(&Big::from_u128(1)));
+        lhs <= rhs
+    }
+    /// is  r > q * (1 - 2^-k) ?
+    pub fn int_gt_scaled_down(&self, r: u128, k: u32) -> bool {
+        // r * den * 2^k > num * (2^k - 1)
+        let lhs = Big::from_u128(r).mul(&self.den).shl(k);
+        let pk = (1u128 << k) - 1;
+        let rhs = self.num.mul(&Big::from_u128(pk));
+        lhs > rhs
+    }
+    /// q < n ?
+    pub fn lt_int(&self, n: u128) -> bool {
+        self.num < Big::from_u128(n).mul(&self.den)
+    }
+    /// q >= n ?
+    pub fn ge_int(&self, n: u128) -> bool {
+        !self.lt_int(n)
+    }
+    /// q >= 2^k ?
+    pub fn ge_pow2(&self, k: u32) -> bool {
+        self.num >= self.den.shl(k)
+    }
+    /// 2*|q - r| <= t  where t is given as rational t_num/t_den? Kept simple: |q - r| <= half + q*2^-k
+    /// i.e.  r - 1/2 - q*2^-k <= q <= r + 1/2 + q*2^-k   (nearest-integer rounding with relative slack)
+    pub fn nearest_within(&self, r: u128, k: u32) -> bool {
+        // upper: q*(1 - 2^-k) <= r + 1/2   <=>  2*num*(2^k - 1) <= (2r+1) * den * 2^k
+        let pk = Big::from_u128((1u128 << k) - 1);
+        let up_l = self.num.mul(&pk).shl(1);
+        let up_r = Big::from_u128(2 * r + 1).mul(&self.den).shl(k);
+        if up_l > up_r {
+            return false;
+        }
+        // lower: q*(1 + 2^-k) >= r - 1/2   <=>  2*num*(2^k + 1) >= (2r-1) * den * 2^k   (trivial if r == 0)
+        if r == 0 {
+            return true;
+        }
+        let pk1 = Big::from_u128((1u128 << k) + 1);
+        let lo_l = self.num.mul(&pk1).shl(1);
+        let lo_r = Big::from_u128(2 * r - 1).mul(&self.den).shl(k);
+        lo_l >= lo_r
+    }
+    pub fn is_zero(&self) -> bool {
+        self.num.is_zero()
+    }
+    /// approximate value (for reports only)
+    pub fn approx(&self) -> f64 {
+        let nb = self.num.bits() as i32;
+        let db = self.den.bits() as i32;
+        let top = |b: &Big| -> f64 {
+            let mut x = 0f64;
+            for &l in b.0.iter().rev().take(2) {
+                x = x * 18446744073709551616.0 + l as f64;
+            }
+            x
+        };
+        let nl = self.num.0.len() as i32;
+        let dl = self.den.0.len() as i32;
+        let _ = (nb, db);
+        let n = top(&self.num);
+        let d = top(&self.den);
+        if d == 0.0 {
+            return f64::INFINITY;
+        }
+        let shift = ((nl - 2).max(0) - (dl - 2).max(0)) * 64;
+        (n / d) * (2f64).powi(shift)
+    }
+}
+
+#[cfg(test)]
+mod tests {
+    use super::*;
+    #[test]
+    fn basics() {
+        let q = abs_product(3, 0.5);
+        assert!(q.lt_int(2) && q.ge_int(1));
+        let q = abs_quotient(10, 4.0);
+        assert!(q.int_le_scaled_up(2, 52) && q.int_gt_scaled_down(3, 52));
+        assert!(abs_product(1, 1e300).ge_pow2(900));
+    }
+}
